@@ -890,12 +890,14 @@ def CustomObservable(type='x-custom-observable', properties=None, id_contrib_pro
             ),
         )
         if extension_name:
+            # Named after the UUID of an "extension-definition--<UUID>" name
+            # (after the whole name, if it is of the "...-ext" kind).
+            extension = extension_name.split('--')[-1].replace('-', '')
+
             @CustomExtension(type=extension_name, properties={})
             class NameExtension:
                 extension_type = 'new-sco'
 
-            extension = extension_name.split('--')[1]
-            extension = extension.replace('-', '')
             NameExtension.__name__ = 'ExtensionDefinition' + extension
             cls.with_extension = extension_name
         try:
